@@ -92,6 +92,15 @@ impl Builder {
 
             for pair_result in section.stepthrough().map_err(Error::StepthroughError)? {
                 let pair = pair_result.map_err(Error::StepthroughError)?;
+
+                // A zero-sized block aligns no bases, so there is nothing to
+                // look up. Indexing it anyway would make the answers depend on
+                // whether a trailing `<size>\t0\t0` / `0` pair of lines is
+                // present, which a truncated file cannot be told apart from.
+                if pair.reference().count_entities() == 0 {
+                    continue;
+                }
+
                 let entry = hm.entry(pair.reference().contig().clone()).or_default();
 
                 let (start, stop) = match pair.reference().strand() {
